@@ -63,6 +63,10 @@ Spec == Init /\ [][Next]_vars
 FoldLaw == stage = "done" =>
    LET r == [names |-> RowNames, vals |-> case.row] IN
    \/ EvalSet(Fold(case.e), r) \subseteq EvalSet(case.e, r)
+\* the result depends on the names and values of the row only, not on the order of its columns
+Reversed(q) == [k \in 1..Len(q) |-> q[Len(q) + 1 - k]]
+LayoutFree == stage = "done" =>
+   EvalSet(case.e, [names |-> RowNames, vals |-> case.row]) = EvalSet(case.e, [names |-> Reversed(RowNames), vals |-> Reversed(case.row)])
 \* every admitted result is a value; comparisons and logic give 0/1
 ResultShape == stage = "done" =>
    /\ case.want # <<>>
